@@ -657,8 +657,59 @@ def storage_fns(const_visit=True):
     return [resize, upd('resize_upd_i64', 'long'), upd('resize_upd_i32', 'int'), visit]
 
 
+UPD_H = 'specs/C08/update.h'
+import os as _os
+CBMC_TIMEOUT_DEFAULT = int(_os.environ.get('NV_CBMC_TIMEOUT', '600'))
+FEATURE_TYPE_ENUM = [('src/dataset.cpp', 'nano::feature_type')]
+
+
+def table_write_hook(P, n):
+    """`table(i, j) = value` on a rank-2 index tensor -> nv_map_set(&table, i, j, value): the write is a call of the ghost-row
+    setter (no pointer into the model is handed out)"""
+    import re
+    from cxx2c import unwrap, strip_cv, qual
+    if n.get('kind') != 'BinaryOperator' or n.get('opcode') != '=':
+        return None
+    lhs = unwrap(n['inner'][0])
+    if lhs.get('kind') != 'CXXOperatorCallExpr' or len(lhs.get('inner', [])) != 4:
+        return None
+    if unwrap(lhs['inner'][0]).get('referencedDecl', {}).get('name') != 'operator()':
+        return None
+    obj = lhs['inner'][1]
+    if not re.search(r'tensor_(t<nano::tensor_vector_storage_t, |vector_storage_t<|base_t<)long, 2|tensor_mem_t<(nano::)?tensor_size_t, 2', strip_cv(qual(obj['type']))):
+        return None
+    P.note('table(i, j) = v -> nv_map_set')
+    return f'nv_map_set({P.addr(obj)}, {P.expr(lhs["inner"][2])}, {P.expr(lhs["inner"][3])}, {P.expr(n["inner"][1])})'
+
+
+def update_fns():
+    """dataset_t::update(): the two passes over the generator list that build the feature / column / generator tables"""
+    gv = r'std::vector<std::unique_ptr<nano::generator_t'
+    types = [(r'__normal_iterator<\s*(const )?std::unique_ptr<nano::generator_t|^' + gv + r'.*>::(const_)?iterator$', 'int64_t'),
+             (r'^nano::rgenerator_t$|^std::unique_ptr<nano::generator_t', 'struct nv_rgen'),
+             (r'^nano::rgenerators_t$|^' + gv, 'struct nv_gens'),
+             (r'^nano::feature_t$', 'struct nv_feature'), (r'^nano::feature_type$', 'int32_t'),
+             (r'^nano::tensor3d_dims_t$|^std::array<long, 3>$|tensor_dims_t<3', 'struct nv_dims3')]
+    t2 = r'nano::tensor_(t<nano::tensor_vector_storage_t, |vector_storage_t<|base_t<)long, 2'
+    calls = [(r'^operator!=\|.*__normal_iterator', '({0} != {1})'), (r'^operator\+\+\|.*__normal_iterator', '(++{0})'),
+             (r'^operator\*\|.*__normal_iterator', '(*nv_gens_at(&self->m_generators, {0}))'),
+             (r'^operator->\|std::unique_ptr<nano::generator_t>::pointer \(\) const', '{&0}'),
+             (r'^size\|nano::tensor_size_t \(const tensor_dims_t<3', 'nv_dims3_size({0})'),
+             (r'^operator\[\]\|.*std::array<long, 3>', 'nv_dims3_get({0}, {1})'),
+             ]
+    members = [(r'^begin\|' + gv, 'nv_gens_begin'), (r'^end\|' + gv, 'nv_gens_end'),
+               (r'^features\|nano::generator_t', 'nv_gen_features'), (r'^feature\|nano::generator_t', 'nv_gen_feature'),
+               (r'^type\|nano::feature_t', 'nv_feat_type'), (r'^classes\|nano::feature_t', 'nv_feat_classes'), (r'^dims\|nano::feature_t', '{*self}.m_dims'),
+               (r'^resize\|' + t2, 'nv_map_resize')]
+    return [Fn('dataset_update', 'src/dataset.cpp', 'update', flt='nano::dataset_t::update', self_struct='struct nv_dataset', types=types,
+               uf_float=False, calls=calls, members=members, hooks=[table_write_hook])]
+
+
 def build(tier):
     targets = []
+    if tier == 'thorough':
+        # dataset_t::update() under contract (5 nested loop contracts, ghost prefix-sum arrays): ~4 minutes of SAT time, hence not in the quick tier
+        targets.append(Target('dataset_update', update_fns, UPD_H, enforce='dataset_update', enums=FEATURE_TYPE_ENUM, cbmc_flags=['--arrays-uf-always'], timeout=max(300, CBMC_TIMEOUT_DEFAULT)))
     setbit, getbit, optional = mask_fns()
     targets.append(Target('mask_setbit', [setbit], MASK_H))
     targets.append(Target('mask_getbit', [getbit], MASK_H))
@@ -712,9 +763,11 @@ def build(tier):
             'one-hot flatten (elemwise_generator_t<sclass_identity_t>::flatten, 8-bit labels) with the real operator*, iterator, getbit and label operator: every cell of the processed rows inside [column, column+colsize) is +1 / -1 by the documented C-1 column encoding or NaN when the value is missing, every other cell is untouched, every row / segment / one-hot index is inside the buffer',
             'typed value pools: for every feature list (any length, kinds, class counts -- every storage-width boundary --, dimensions) the real visit() (reader and writer overload) slices the pool whose type the real resize() recorded for the feature, inside the rows resize() gave that pool; two features never share rows of a pool; the mask has one row per feature and (samples+7)/8 bytes; no width rule is written in the spec (the two real dispatches are compared); datasource_storage_access*: dsrc_resize.loop_invariant_step.3/.4 = clause (c)+(a) at the observed features, step.5 = clause (b); datasource_storage_single*: the same clauses as named assertions for one-feature data sources',
             'pairwise product: the operator of pairwise_product_t::process equals (scalar_t)v1 * (scalar_t)v2 with IEEE semantics for all 10 x 10 storage-type instantiations; pairwise select_scalar / flatten (int32 x uint32): a cell is that product of the two stored sources of the sample behind the row when both are given, NaN otherwise, every other cell untouched, all reads in bounds',
+            '[thorough tier] dataset_t::update() (real body, 5 loop contracts, for every generator list of up to 1000 generators / 1000 generated features, feature counts and column counts given by ghost prefix sums fbase / cbase): ESTABLISHES the bookkeeping invariant from any prior state: feature table has one row per generated feature and 5 columns, column table one row per flattened column (documented encodings: one-hot C-1, multi-label C, scalar / structured size(dims)) and 3 columns, generator table one row per generator; every write of the three tables is inside its table and every row is written; row f of the feature table names a generator g in [0, generators) that owns f (fbase[g] <= f < fbase[g+1]), the local index f - fbase[g] and the dimensions of the descriptor (mclass: (classes,1,1), scalar / struct: dims()); row c of the column table names the feature k < features() that owns c (cbase[k] <= c < cbase[k+1]: the column ranges of the features are consecutive, disjoint and tile [0, columns()), column2feature answers with the owner), the local column c - cbase[k] and a generator that owns k; row g of the generator table is the width of the column range [cbase[fbase[g]], cbase[fbase[g+1]]) that dataset_t::flatten hands to generator g; generator->feature(i) is only called with a valid local index',
             'drop / shuffle protocol: transition contracts of drop / shuffle / undrop / unshuffle over every reachable state, observed through the real should_drop / shuffled readers (hence for every call sequence, by induction); generator_t::select x4: a dropped feature is filled with NaN / -1 and its values are not computed, otherwise do_select runs on exactly these arguments'],
         'not_decided': [
-            'agreement of the per-feature and flattened views for the other 11 feature kinds / storage widths, product and gradient generators, targets; the column-to-feature bookkeeping built by dataset_t::update() (its invariant is assumed at the queried row)',
+            'agreement of the per-feature and flattened views for the other 11 feature kinds / storage widths, product and gradient generators, targets (the instantiations that exist were not enumerated with astload.instantiations in this round)',
+            'the invariant proved for dataset_t::update() (thorough tier) is not yet wired into its callers: byfeature / select / flatten still ASSUME it at the queried row (the assumed instance -- 5 columns, 0 <= mapping(f, 0) < generators -- is a consequence of clauses 1 and 3 of the update contract, but no refinement target checks that implication); the loop of dataset_t::flatten that adds up the generator widths is not under contract',
             'the thread-parallel dataset_t::flatten / targets bodies; generator_t::shuffled(feature, samples) (the loop that applies the permutation) and flatten_dropped',
             'the reshape arithmetic inside datasource_t::visit (only pool and row range are observed) and the value conversion in datasource_t::set / feature_storage_t',
             'pairwise loops for the other 99 storage-type pairs and the sclass / mclass / struct pairwise generators (same template text, other instantiations)',
@@ -730,7 +783,8 @@ def build(tier):
             'tensor.size<k>() / size() return the k-th / only dimension; std::vector::operator[] is p[i] (bounds checked)',
             'mask of a feature has (samples+7)/8 bytes (datasource_t::resize: m_storage_mask.resize(features, (samples + 7) / 8)); callers pass 0 <= sample < samples (datasource_t::set asserts it; for readers this is exactly what dataset_t::check(samples) must establish)',
             'tensor_mem_t<uint8_t,1>(dims) allocates size(dims) elements; tensor.zero() sets every element to 0',
-            'dataset invariant from dataset_t::update(), used only at the queried row: m_feature_mapping has 5 columns and mapping(feature, 0) is a valid index into m_generators',
+            'update target: generator_t::features() / feature(i) are pure functions of (generator, i) answered from ghost prefix-sum arrays (features(g) >= 0; at most 1000 generators, 1000 generated features, 2^40 columns in total); feature_t: classes() >= 1 for a single-label feature, >= 0 otherwise, size(dims) >= 0 is the number of components (C16 proves nano::size); tensor.resize(rows, cols) sets the dimensions and leaves arbitrary contents; the three tables are observed at one ghost row each plus the largest row ever written; range-for over m_generators visits the slots 0 .. size-1 in order',
+            'dataset invariant from dataset_t::update() (now proved for update() itself in the thorough tier, still assumed by the callers), used only at the queried row: m_feature_mapping has 5 columns and mapping(feature, 0) is a valid index into m_generators',
             'the permutation m_shuffled_all_samples is empty or has samples() entries each in [0, samples()) (generator_t::shuffle: std::shuffle of arange)',
             'flatten target: the listed samples are valid indices (what check(samples) must establish) -- every list read returns some index in [0, N); the flatten buffer is tracked at one ghost cell (the function never reads it); Eigen segment / setConstant / coefficient access have their documented meaning with their index preconditions checked at each use; dataset_t::flatten maps the buffer to samples.size() rows and hands the generator a column range inside it; generator_t::NaN is a NaN',
             'select targets: dataset_t::feature(i) throws for an invalid i (as proved for byfeature) and otherwise returns an arbitrary descriptor; handle_<kind> throws unless the descriptor has that kind; resize_and_map returns a view with the requested leading dimension (further dimensions not modelled); generator_t::select may throw',
